@@ -82,3 +82,12 @@ def run(ctx):
                 s["opts"]["isolate"] = True
             sp.append(s)
     spelling(ctx, eng, sp)
+    # input-mode dimension (CLI layer): the same roots on --stdin (with --match-links a path listed twice is a false replica)
+    st = []
+    for _ in range(ctx.pick(16, 200)):
+        x = G.gen_stdin_spec(ctx.rng.fork(), "C06")
+        if ctx.rng.chance(1, 2):
+            x["opts"]["match_links"] = True
+        st.append(x)
+    G.stdin_mode_check(ctx, eng, st)
+
